@@ -7,6 +7,7 @@ import (
 	"testing"
 	"time"
 
+	"github.com/openebs/jiva/backend/remote"
 	"github.com/openebs/jiva/types"
 	"pgregory.net/rapid"
 )
@@ -26,9 +27,14 @@ type EOp struct {
 }
 
 type ECase struct {
-	RF    int       `json:"rf"`
-	Specs []RegSpec `json:"specs"`
-	Ops   []EOp     `json:"ops"`
+	// RealProbe: the controller's liveness probe of the elected replica is the
+	// product's own (HTTP GET /ping with its time-out, lowered to 1 s); a dead
+	// replica then is one whose /ping is not answered in time (a hung process),
+	// not one that refuses the connection
+	RealProbe bool      `json:"realprobe,omitempty"`
+	RF        int       `json:"rf"`
+	Specs     []RegSpec `json:"specs"`
+	Ops       []EOp     `json:"ops"`
 }
 
 // prepareNodeState gives the node's directory the revision counter and state it reports.
@@ -64,6 +70,13 @@ func runECase(ec ECase) (*Fail, []string, map[string]int, error) {
 	}
 	defer st.Destroy()
 	SetStackTimeouts(sRW, sPing, 3600e9)
+	if ec.RealProbe {
+		st.Fac.ForwardAlive = true
+		oldT := remote.VerifyReplicaAliveTimeout
+		remote.VerifyReplicaAliveTimeout = time.Second
+		defer func() { remote.VerifyReplicaAliveTimeout = oldT }()
+		labels["real-liveness-probe"]++
+	}
 	for i, sp := range ec.Specs {
 		if err := prepareNodeState(st.Nodes[i], sp); err != nil {
 			return nil, nil, nil, fmt.Errorf("prepare n%d: %v", i, err)
@@ -131,12 +144,16 @@ func runECase(ec ECase) (*Fail, []string, map[string]int, error) {
 			st.Fac.mu.Lock()
 			st.Fac.Dead[st.Nodes[i].IP] = true
 			st.Fac.mu.Unlock()
+			if ec.RealProbe {
+				st.Nodes[i].SetPingHang(2500 * time.Millisecond)
+			}
 			dead[st.Nodes[i].IP] = true
 			tr("#%d dead n%d", oi, i)
 		case "alive":
 			st.Fac.mu.Lock()
 			delete(st.Fac.Dead, st.Nodes[i].IP)
 			st.Fac.mu.Unlock()
+			st.Nodes[i].SetPingHang(0)
 			delete(dead, st.Nodes[i].IP)
 			tr("#%d alive n%d", oi, i)
 		case "register":
@@ -159,7 +176,9 @@ func runECase(ec ECase) (*Fail, []string, map[string]int, error) {
 				}
 			}
 			regModel[ip] = reg
+			deposed, leaderBefore := false, signalled
 			if attachedBefore == 0 && signalled != "" && ip != signalled && dead[signalled] {
+				deposed = true
 				// the replica that was asked to start does not answer any more: its
 				// registration lapses (it is not a reachable replica) and it has to register again
 				delete(regModel, signalled)
@@ -168,6 +187,28 @@ func runECase(ec ECase) (*Fail, []string, map[string]int, error) {
 			sigs := st.Fac.SignalsCopy()[before:]
 			tr("#%d register n%d ip=%s rev=%d state=%s -> err=%v signals=%v registered=%v leader=%s", oi, i, ip, sp.Rev, sp.State, err, fmtSignals(sigs), regKeys(vs.Registered), vs.MaxRevReplica)
 			labels["register"]++
+			if deposed {
+				// the elected replica gave no sign of life and another replica has just
+				// registered: the dead one is dropped and, if the replicas that are
+				// registered and reachable still form a majority, one of them is asked now
+				reachable := 0
+				for a, r := range regModel {
+					if !dead[a] && idxOf(a) >= 0 && r.RepState != "rebuilding" {
+						reachable++
+					}
+				}
+				asked := false
+				for _, sg := range sigs {
+					if sg.Action == "start" && !dead[sg.Addr] {
+						asked = true
+					}
+				}
+				labels["dead-leader-deposed"]++
+				// (a registration in state rebuilding is only recorded: it elects nobody)
+				if len(regModel) >= ec.RF/2+1 && reachable > 0 && !asked && err == nil && reg.RepState != "rebuilding" {
+					return fail("election|dead-leader-not-replaced", fmt.Sprintf("%s was asked to start and does not answer any more; %s registered, %d registered replicas (%d reachable, not rebuilding) of RF=%d - nobody was asked to start the volume (leader now %q)", leaderBefore, ip, len(regModel), reachable, ec.RF, vs.MaxRevReplica), "C09"), trace, labels, nil
+				}
+			}
 			for _, sg := range sigs {
 				if sg.Action != "start" {
 					continue
@@ -377,7 +418,7 @@ func fmtReg(m map[string]types.RegReplica) string {
 func genECase(t *rapid.T) ECase {
 	rf := rapid.SampledFrom([]int{1, 2, 3, 3, 4, 5, 5}).Draw(t, "rf")
 	n := rapid.IntRange(max(1, rf-1), rf+1).Draw(t, "nodes")
-	ec := ECase{RF: rf}
+	ec := ECase{RF: rf, RealProbe: rapid.IntRange(0, 2).Draw(t, "realprobe") == 0}
 	for i := 0; i < n; i++ {
 		ec.Specs = append(ec.Specs, RegSpec{
 			Rev:   rapid.Int64Range(1, 12).Draw(t, "rev"),
